@@ -162,6 +162,7 @@ POLICIES = {"idem": (2, 240), "nonidem": (0, 240), "conn": (0, 8)}
 
 class Env:
     """One scripted run of a socket against the fake network."""
+    policy_baseline = None
 
     def __init__(self, gen=4):
         self.gen = gen
@@ -320,7 +321,16 @@ class Env:
     async def _api_send(self, sid, kind, policy):
         S = self.S
         retries, life = POLICIES[policy]
-        pol = S.RetryPolicy(max_retries=retries, max_lifetime=life * TICK)
+        # the API layers pass the package's module-level policy objects: use the very same objects (a policy that has drifted
+        # from its documented value - e.g. mutated by an earlier run in this process - then shows up in the monitors, which
+        # judge against the documented values recorded with the acceptance)
+        pol = {"idem": S.RETRY_IDEMPOTENT, "nonidem": S.RETRY_NON_IDEMPOTENT, "conn": S.RETRY_CONNECTED}[policy]
+        if Env.policy_baseline is None:
+            Env.policy_baseline = {k: (p.max_retries, p.max_lifetime) for k, p in
+                                   (("idem", S.RETRY_IDEMPOTENT), ("nonidem", S.RETRY_NON_IDEMPOTENT), ("conn", S.RETRY_CONNECTED))}
+            for k, (r, l) in Env.policy_baseline.items():
+                if (r, round(l / TICK)) != POLICIES[k]:
+                    raise RuntimeError("harness policy table %r differs from the package constants %r" % (POLICIES, Env.policy_baseline))
         try:
             msg = self.make_message(sid, kind)
         except Exception as e:  # noqa: BLE001
